@@ -150,6 +150,9 @@ pub struct PoolImpl {
     votor_event_channel: Sender<PoolEvent>,
     /// Channel for sending repair requests to the repair loop.
     repair_channel: Sender<BlockId>,
+    /// Log of all finalization events handled so far (verification hook).
+    #[cfg(feature = "verif-hooks")]
+    verif_fin_log: Vec<(Option<BlockId>, Vec<BlockId>, Vec<Slot>)>,
 }
 
 impl PoolImpl {
@@ -169,6 +172,8 @@ impl PoolImpl {
             epoch_info,
             votor_event_channel,
             repair_channel,
+            #[cfg(feature = "verif-hooks")]
+            verif_fin_log: Vec::new(),
         }
     }
 
@@ -407,6 +412,12 @@ impl PoolImpl {
     }
 
     async fn handle_finalization(&mut self, event: FinalizationEvent) {
+        #[cfg(feature = "verif-hooks")]
+        self.verif_fin_log.push((
+            event.finalized.clone(),
+            event.implicitly_finalized.clone(),
+            event.implicitly_skipped.clone(),
+        ));
         let new_parents_ready = self.parent_ready_tracker.handle_finalization(event);
         self.send_parent_ready_events(new_parents_ready).await;
         self.prune();
@@ -605,6 +616,36 @@ impl Pool for PoolImpl {
 
     fn wait_for_parent_ready(&mut self, slot: Slot) -> Either<BlockId, oneshot::Receiver<BlockId>> {
         self.parent_ready_tracker.wait_for_parent_ready(slot)
+    }
+}
+
+/// Read-only accessors for out-of-tree verification (feature `verif-hooks`).
+#[cfg(feature = "verif-hooks")]
+impl PoolImpl {
+    /// First slot whose state has not been pruned.
+    pub fn verif_first_unpruned_slot(&self) -> Slot {
+        self.first_unpruned_slot()
+    }
+
+    /// All finalization events handled so far: (directly finalized, implicitly finalized, implicitly skipped).
+    pub fn verif_fin_log(&self) -> &[(Option<BlockId>, Vec<BlockId>, Vec<Slot>)] {
+        &self.verif_fin_log
+    }
+
+    /// Lowest key and size of each per-slot container, in the order:
+    /// slot states, finality status, finality parents, parent-ready states, waiting safe-to-notar parents.
+    pub fn verif_retained(&self) -> [(Option<Slot>, usize); 5] {
+        let [status, parents] = self.finality_tracker.verif_retained();
+        [
+            (self.slot_states.keys().next().copied(), self.slot_states.len()),
+            status,
+            parents,
+            self.parent_ready_tracker.verif_retained(),
+            (
+                self.s2n_waiting_parent_cert.keys().next().map(|(s, _)| *s),
+                self.s2n_waiting_parent_cert.len(),
+            ),
+        ]
     }
 }
 
